@@ -105,6 +105,18 @@ Theorem C10_well_behaved_never_closed_async : forall h q, wb_hist_a bname store 
 Proof. exact (well_behaved_never_closed_async bname store). Qed.
 End C10wb.
 
+(* ---- the same for the code as TRANSLATED from the Python source on every run (harness/pytrans3.py -> BrokerGen.v):
+   run_src is the event loop with the translated Server.subscribe/unsubscribe/publish and Connection.on_publish/
+   on_subscribe/on_unsubscribe/authenticate/connection_lost/message_received plugged in; BrokerGenRun.run_src_eq proves it
+   equal to the model.  These theorems rely on functional_extensionality_dep (Coq standard library) and nothing else. *)
+From HP Require Import PyBroker BrokerGen BrokerGenEq BrokerGenRun BrokerGenProps.
+Theorem C10_src_run_is_model : forall bname store async_store h, run_src bname store async_store h = run bname store async_store h.
+Proof. exact run_src_eq. Qed.
+Theorem C10_src_deliveries_exact : forall bname store async_store h q, pubs (out (conns (run_src bname store async_store h) q)) = sp_out (spec (alog (run_src bname store async_store h))) q.
+Proof. exact src_refines. Qed.
+Theorem C10_src_good : forall bname store async_store h, Good (srow store) async_store (run_src bname store async_store h).
+Proof. exact src_good. Qed.
+
 Print Assumptions C10_frame_local.
 Print Assumptions C10_tick_local.
 Print Assumptions C10_deliveries_exact.
@@ -118,3 +130,6 @@ Print Assumptions C10_closing_blame.
 Print Assumptions C10_permitted_data.
 Print Assumptions C10_well_behaved_never_closed.
 Print Assumptions C10_well_behaved_never_closed_async.
+Print Assumptions C10_src_run_is_model.
+Print Assumptions C10_src_deliveries_exact.
+Print Assumptions C10_src_good.
